@@ -126,12 +126,6 @@ package server
 //@   modifies *
 //@   preserves State.Panel, State.AdminUID, State.ProxyBook, State.BypassUID
 // session bookkeeping of a user (C15): assumed here not to touch connections or configuration
-//@ func (*ActiveUser).GetSession
-//@   flag trusted
-//@   requires u != nil
-//@   ensures seshOnSuccess: err == nil ==> sesh != nil
-//@   modifies *
-//@   preserves $KEEP
 //@ func (*ActiveUser).CloseSession
 //@   flag trusted
 //@   requires u != nil
@@ -172,3 +166,39 @@ package server
 //@   atcall Write requires replayIntact: len(data) == inpos(conn) - old(inpos(conn)) && (forall k int :: 0 <= k && k < len(data) ==> data[k] == inbyte(conn, old(inpos(conn)) + k))
 //@   atcall Dial requires relayUnimpeded: !deadlineArmed(conn) && closedconn(conn) == old(closedconn(conn))
 //@   flag noframe
+
+// ---------------------------------------------------------------------------------------------
+// Users and sessions (C15, C16, C17). Lock discipline: every access to a guarded map is checked to
+// happen under its lock, every acquisition is checked against the declared order
+//     usageUpdateQueueM < activeUsersM < sessionsM
+// (an acquisition against the order can deadlock with one that follows it: C17).
+// ---------------------------------------------------------------------------------------------
+//@ guardedby ActiveUser.sessionsM: mapof(ActiveUser.sessions)
+//@ guardedby userPanel.activeUsersM: mapof(userPanel.activeUsers)
+//@ guardedby userPanel.usageUpdateQueueM: mapof(userPanel.usageUpdateQueue), userPanel.usageUpdateQueue
+//@ lockinv ActiveUser.sessionsM: sessionsOK: self.sessions != nil
+//@ lockinv userPanel.activeUsersM: usersOK: self.activeUsers != nil
+//@ lockinv userPanel.usageUpdateQueueM: queueOK: self.usageUpdateQueue != nil
+
+//@ func (github.com/cbeuw/Cloak/internal/server/usermanager.UserManager).AuthoriseNewSession
+//@   flag trusted
+//@   ensures belowCap: ret0 == nil ==> arg1.NumExistingSessions < uf("sessionsCap", strOfBytes(arg0))
+//@ func (github.com/cbeuw/Cloak/internal/server/usermanager.UserManager).AuthenticateUser
+//@   flag trusted
+//@   ensures rates: ret2 == nil ==> ret0 > 0 && ret1 > 0
+
+// GetSession (C15): under sessionsM, an existing session with this id is returned as it is; otherwise
+// (limited users) the manager is asked with the CURRENT number of sessions, and only then a new
+// session is created and registered under this id. One lock, one look-up, one insert: connections
+// with the same id always meet in the same session, whatever their order.
+//@ func (*ActiveUser).GetSession
+//@   requires u != nil && u.panel != nil && u.panel.Manager != nil && !held(u.sessionsM) && locksBelow(u.sessionsM)
+//@   atcall AuthoriseNewSession requires countIsCurrent: heldx(u.sessionsM) && ainfo.NumExistingSessions == mapLen(u.sessions)
+//@   ensures existingIsShared: existing ==> err == nil && sesh != nil && sesh == acq(u.sessions[sessionID])
+//@   ensures newIsRegistered: !existing && err == nil ==> sesh != nil && !acq(mapHas(u.sessions, sessionID) && u.sessions[sessionID] != nil) && u.sessions[sessionID] == sesh
+//@   ensures capRespected: !existing && err == nil && !u.bypass ==> acq(mapLen(u.sessions)) < uf("sessionsCap", strOfBytes(u.arrUID[:]))
+//@   ensures othersKept: forall k uint32 :: k != sessionID ==> mapHas(u.sessions, k) == acq(mapHas(u.sessions, k)) && u.sessions[k] == acq(u.sessions[k])
+//@   ensures refusedChangesNothing: err != nil ==> sesh == nil && (forall k uint32 :: mapHas(u.sessions, k) == acq(mapHas(u.sessions, k)) && u.sessions[k] == acq(u.sessions[k]))
+//@   ensures locks: !held(u.sessionsM)
+//@   modifies *
+//@   preserves $KEEP
